@@ -6,7 +6,7 @@
 From Coq Require Import List NArith Bool.
 From Coq.Strings Require Import Byte.
 Import ListNotations.
-From OV Require Import Model.Value Model.XPathFrag Model.Decl Model.Eval Proofs.PipelineC02.
+From OV Require Import Model.Value Model.XPathFrag Model.Decl Model.Eval Proofs.PipelineC02 Gen.DeclHash.
 From OV Require Model.Json Proofs.Json Proofs.PipelineCanonJson Proofs.PipelineCanonXml.
 From OV Require Import Base.Bytes Base.Tree Model.Pipeline Proofs.Pipeline Proofs.PipelineInst Proofs.PipelineCanon.
 
@@ -62,6 +62,19 @@ Section C15.
     Inv h -> Inv h' -> content_stable_per_id s -> (forall x y, g x = g y -> x = y) ->
     run_env h (rehash g s) ctx us = run_env h' s ctx us.
   Proof. exact (hash_assignment_irrelevant schema V C c0 eval marshal marshal_err_cont H canon CInv content_stable_per_id CInv_mono eval_cache_transparent eval_id_renaming eval_caches_sound rehash eval_hash_renaming guard_rehash). Qed.
+
+  (* "any injective assignment" presupposes that the assignment made by validate.go IS injective
+     on declaration encodings: the hash table is keyed by the full encoding (Gen/DeclHash.v,
+     re-extracted from computeDeclHash on every run) *)
+  Theorem hash_assignment_irrelevant_src :
+    decl_hash_key_is_full_encoding = true /\
+    forall h h' g s ctx us,
+      Inv h -> Inv h' -> content_stable_per_id s -> (forall x y, g x = g y -> x = y) ->
+      run_env h (rehash g s) ctx us = run_env h' s ctx us.
+  Proof.
+    exact (conj (eq_refl true)
+                (OV.Proofs.Pipeline.hash_assignment_irrelevant schema V C c0 eval marshal marshal_err_cont H canon CInv content_stable_per_id CInv_mono eval_cache_transparent eval_id_renaming eval_caches_sound rehash eval_hash_renaming guard_rehash)).
+  Qed.
 
   (* the checksum of a delivered record is H (canon t) of its own tree: equal raw records have
      equal checksums, in any position, run, process and schema *)
